@@ -12,7 +12,7 @@ CONSTANTS LenAll, LenOne, MaxEv, LenMat, MatStride
 
 Seqs(n) == {s \in [1..n -> {0, 1}] : SumSeq(s) <= MaxEv}
 Unit(n) == [k \in 1..n |-> k - 1]
-Gaps == <<1, 3, 2, 1, 4, 2, 3, 1>>
+Gaps == <<1, 3, 2, 1, 4, 2, 3, 1, 2, 3>>
 RECURSIVE Cum(_)
 Cum(k) == IF k = 0 THEN 0 ELSE Cum(k - 1) + Gaps[k]
 Irr(n) == [k \in 1..n |-> Cum(k - 1)]          \* times in half units (den = 2)
@@ -44,7 +44,20 @@ MkMat(k) ==
       ts |-> IF cf[1] = "unit" THEN Unit(LenMat) ELSE Irr(LenMat), den |-> den,
       unit |-> IF cf[1] = "unit" THEN 1 ELSE 0,
       tm |-> IF cf[2] = -1 THEN INF ELSE cf[2] * den, lag |-> cf[3] * den]
-Mats == {MkMat(k) : k \in MatIdx}
+\* sparse triples of length 10 (events three steps apart: the dynamical coincidence interval of ES is 1.5
+\* steps, so that a neighbouring event of the other series counts unless the window bound taumax forbids it;
+\* ES only counts inner events, hence four events per series), under every configuration
+Ev10(S) == [k \in 1..10 |-> IF k \in S THEN 1 ELSE 0]
+Sparse == { << Ev10({1, 4, 7, 10}), Ev10({2, 5, 8}), Ev10({1, 5, 9}) >>,
+            << Ev10({2, 5, 8}), Ev10({1, 4, 7, 10}), Ev10({3, 6, 9}) >>,
+            << Ev10({1, 4, 7, 10}), Ev10({1, 5, 8, 10}), Ev10({2, 4, 7, 9}) >> }
+MkMatOf(t, cf) ==
+  LET den == IF cf[1] = "unit" THEN 1 ELSE 2
+  IN [blk |-> "mat", cols |-> t,
+      ts |-> IF cf[1] = "unit" THEN Unit(10) ELSE Irr(10), den |-> den,
+      unit |-> IF cf[1] = "unit" THEN 1 ELSE 0,
+      tm |-> IF cf[2] = -1 THEN INF ELSE cf[2] * den, lag |-> cf[3] * den]
+Mats == {MkMat(k) : k \in MatIdx} \cup {MkMatOf(t, cf) : t \in Sparse, cf \in Configs}
 
 \* thresholding: all integer series over 0..3 of length 5 (as one column next to a
 \* fixed second column), value thresholds 0..3 and quantiles k/4, both types
